@@ -247,3 +247,57 @@ pub fn churn_conservation<const ROUNDS: usize>() {
 
 crate::mq_harness_real!(c17_churn_r2, hk_c17_churn_r2, Idle, churn_conservation::<2>());
 crate::mq_harness_real!(c17_churn_r3, hk_c17_churn_r3, Idle, churn_conservation::<3>());
+
+// ==========================================================================================
+// C16 whole queue, REAL memory manager: the last handle of a stream is dropped (outer operation:
+// token handling + ReadCursor::remove_reader, which walks the stream list) while, at its
+// preemption points, another consumer churns streams so that the list the dropping thread is
+// looking at is retired, the reclamation threshold is crossed (19 retirements are pre-loaded),
+// every other live handle announces the new epoch and one more retirement runs try_freeing.
+//   actor 0: drops rx0 (last handle of stream 0)
+//   actor 1: rx2 = rx1.add_stream(); rx1.try_recv(); drop(rx2)
+//   actor 2: tx0.try_send(1)
+// Oracle: CBMC's pointer checks on every access of the real code.
+
+pub struct WqDrop<F>(PhantomData<F>);
+
+impl<F: Fl> Prog for WqDrop<F> {
+    const NACT: usize = 3;
+    const LEN: [u8; MAXACT] = [1, 3, 1, 0];
+    const BASE: [usize; MAXACT] = [0, 4, 8, 0];
+    fn step(a: usize, k: usize) {
+        match (a, k) {
+            (0, _) => op_drop_rx::<F>(0, 0),
+            (1, 0) => op_add_stream::<F>(4, 1, 2, 2),
+            (1, 1) => op_recv::<F>(5, 1),
+            (1, _) => op_drop_rx::<F>(6, 2),
+            (_, _) => op_send::<F>(8, 0, 1),
+        }
+    }
+}
+
+pub fn wholequeue_drop<F: Fl, const OUTER: usize>(preload: usize, budget: u8, kinds: u16) {
+    crate::ledger::reset();
+    payload::reset();
+    sched::configure(1, budget, kinds, 4);
+    let mut w = World::<F>::new(2);
+    set_world::<F>(&mut w);
+    w.rx[1] = Some(F::add_stream(w.rx[0].as_ref().unwrap()));
+    w.rx_stream[1] = 1;
+    F::preload_retirements(w.tx[0].as_ref().unwrap(), preload);
+    crate::ledger::declare_other(0, 0);
+    crate::ledger::declare_other(4, 1);
+    crate::ledger::declare_recv(5, 1, 1);
+    crate::ledger::declare_other(6, 1);
+    crate::ledger::declare_send(8, 2, 1);
+    let frees0 = al().total_frees;
+    run_concurrent::<WqDrop<F>, OUTER>();
+    kani::cover!(sched::st().injected >= 3, "three operations ran inside the removal");
+    kani::cover!(al().total_frees - frees0 >= preload as u32, "a reclamation cycle freed the pre-loaded batch");
+    std::mem::forget(w);
+}
+
+pub const PTR_AND_LOCK_KINDS: u16 = (1 << 3) | (1 << 4) | (1 << 9) | (1 << 10) | (1 << 11);
+
+crate::mq_harness_real!(c16_wq_drop_ptrwin, hk_c16_wq_drop_ptrwin, Runner<WqDrop<BcB>, 0>, wholequeue_drop::<BcB, 0>(19, 4, PTR_AND_LOCK_KINDS));
+crate::mq_harness_real!(c16_wq_drop_seq, hk_c16_wq_drop_seq, Runner<WqDrop<BcB>, 0>, wholequeue_drop::<BcB, 0>(19, 0, 0));
